@@ -110,7 +110,7 @@ def main():
             na.append({"property_id": pid, "reason": NOT_YET})
     man = {
         "version": 1,
-        "setup_cmd": "/venv/bin/python -c 'import hypothesis, mpmath' 2>/dev/null || /venv/bin/pip install --no-index --find-links /opt/veriftools/wheels hypothesis mpmath",
+        "setup_cmd": "/venv/bin/python -c 'import hypothesis, mpmath, sympy, scipy' 2>/dev/null || /venv/bin/pip install --no-index --find-links /opt/veriftools/wheels hypothesis mpmath sympy",
         "hooks": {
             "guard": "GRID_VERIF",
             "enable": "no hooks: every property is observed through the public API; checks import the working tree via PYTHONPATH=/repo/src (set by ./check)",
